@@ -93,6 +93,8 @@ type VersionedFetcher struct {
 	store datastore.Txn
 
 	queuedCids *list.List
+	// mergedCids holds the commits already applied to the transient store during the current seek
+	mergedCids map[cid.Cid]struct{}
 
 	documentACP immutable.Option[dac.DocumentACP]
 
@@ -225,6 +227,7 @@ func (vf *VersionedFetcher) SeekTo(ctx context.Context, c cid.Cid) error {
 func (vf *VersionedFetcher) seekTo(c cid.Cid) error {
 	// reinit the queued cids list
 	vf.queuedCids = list.New()
+	vf.mergedCids = make(map[cid.Cid]struct{})
 
 	// recursive step through the graph
 	err := vf.seekNext(c, true)
@@ -337,6 +340,12 @@ func (vf *VersionedFetcher) seekNext(c cid.Cid, topParent bool) error {
 //
 // Currently we assume the CID is a CompositeDAG CRDT node.
 func (vf *VersionedFetcher) merge(c cid.Cid) error {
+	// every commit is applied exactly once per seek, whichever way it is reached
+	if _, ok := vf.mergedCids[c]; ok {
+		return nil
+	}
+	vf.mergedCids[c] = struct{}{}
+
 	// get node
 	block, err := vf.getDAGBlock(c)
 	if err != nil {
@@ -395,8 +404,9 @@ func (vf *VersionedFetcher) merge(c cid.Cid) error {
 		}
 	}
 
+	// the heads of the replayed version belong to the transient store, not to the request's transaction
 	err = coreblock.ProcessBlock(
-		vf.ctx,
+		datastore.CtxSetTxn(vf.ctx, vf.store),
 		mcrdt,
 		block,
 		cidlink.Link{
